@@ -391,6 +391,457 @@ theorem c01q_phase_centred {l : Level} (hq : c07s_LevelQ l) {sk : Array Int} {po
   rw [Nat.mod_eq_of_lt x1]
   split <;> constructor <;> omega
 
+/-! ## Q3: inversion of `RNSTool.new` for the constants of modulus switching (any plain modulus, including t = 0) -/
+
+/-- what `RNSTool.new` returns for the constants used by modulus switching (any t) -/
+def c01q_NewInv (n : Nat) (q : RNSBase) (t : Modulus) (r : RNSTool) : Prop :=
+  ∃ (iql : List MulOperand),
+      1 ≤ q.size ∧ q.size ≤ 64 ∧ isPow2 n = true ∧ 2 ≤ n ∧ n ≤ 131072 ∧
+      (List.range (q.size - 1)).mapM (fun i => (do
+          let o ← tryInvert (q.q (q.size - 1)).value (q.q i).value
+          match o with
+          | none => .error .refused
+          | some iv => MulOperand.new iv (q.q i) : R MulOperand)) = .ok iql ∧
+      (¬ t.value = 0 → tryInvert (q.q (q.size - 1)).value t.value = .ok (some r.invQLastModT)) ∧
+      r.n = n ∧ r.k = Nat.log2 n ∧ r.baseQ = q ∧ r.t = t ∧ r.invQLastModQ = iql.toArray ∧
+      (t.value = 0 → r.baseTGamma = none)
+
+theorem c01q_pow2_facts {n : Nat} (hn : ¬((!isPow2 n) = true ∨ n < 2 ∨ n > 131072)) :
+    isPow2 n = true ∧ 2 ≤ n ∧ n ≤ 131072 := by
+  cases hp : isPow2 n
+  · exfalso; apply hn; left; rw [hp]; rfl
+  · refine ⟨rfl, ?_, ?_⟩ <;> by_contra hc <;> apply hn <;> right <;> omega
+
+theorem c01q_new_inv_t0 {n : Nat} {q : RNSBase} {t : Modulus} {aux : List Modulus} {r : RNSTool}
+    (h : RNSTool.new n q t aux = .ok r) (ht0 : t.value = 0) : c01q_NewInv n q t r := by
+  unfold RNSTool.new at h
+  split at h
+  · cases h
+  rename_i hqs
+  split at h
+  · cases h
+  rename_i hn
+  dsimp only at h
+  split at h
+  · cases h
+  rename_i hlen
+  obtain ⟨mTilde, hmt, h1⟩ := c01p_bind_ok h; clear h
+  obtain ⟨baseB, hbB, h⟩ := c01p_bind_ok h1; clear h1
+  obtain ⟨baseBsk, hbBsk, h1⟩ := c01p_bind_ok h; clear h
+  obtain ⟨baseBskMt, hbBskMt, h⟩ := c01p_bind_ok h1; clear h1
+  rw [c01p_pure_bind, c01p_pure_bind] at h
+  obtain ⟨qToBsk, hqToBsk, h1⟩ := c01p_bind_ok h; clear h
+  obtain ⟨bMt, hbMt, h⟩ := c01p_bind_ok h1; clear h1
+  obtain ⟨qToMt, hqToMt, h1⟩ := c01p_bind_ok h; clear h
+  obtain ⟨bToQ, hbToQ, h⟩ := c01p_bind_ok h1; clear h1
+  obtain ⟨bMsk, hbMsk, h1⟩ := c01p_bind_ok h; clear h
+  obtain ⟨bToMsk, hbToMsk, h⟩ := c01p_bind_ok h1; clear h1
+  dsimp only at h
+  rw [c01p_pure_bind] at h
+  obtain ⟨prodBModQ, hprodBModQ, h1⟩ := c01p_bind_ok h; clear h
+  obtain ⟨invProdQModBsk, hinvProdQModBsk, h⟩ := c01p_bind_ok h1; clear h1
+  obtain ⟨tb, htb, h1⟩ := c01p_bind_ok h; clear h
+  obtain ⟨invProdBModMsk, hinvProdBModMsk, h⟩ := c01p_bind_ok h1; clear h1
+  obtain ⟨invMtModBsk, hinvMtModBsk, h1⟩ := c01p_bind_ok h; clear h
+  obtain ⟨tq, htq, h⟩ := c01p_bind_ok h1; clear h1
+  obtain ⟨otq, hotq, h1⟩ := c01p_bind_ok h; clear h
+  cases otq with
+  | none => cases h1
+  | some ivq =>
+  dsimp only at h1
+  obtain ⟨ngq, hngq, h⟩ := c01p_bind_ok h1; clear h1
+  obtain ⟨negInvProdQModMt, hnegInvProdQModMt, h1⟩ := c01p_bind_ok h; clear h
+  obtain ⟨prodQModBsk, hprodQModBsk, h⟩ := c01p_bind_ok h1; clear h1
+  rw [c01p_pure_bind] at h
+  dsimp only at h
+  obtain ⟨invQLastModQ, hinvQLastModQ, h1⟩ := c01p_bind_ok h; clear h
+  rw [c01p_pure_bind] at h1
+  injection h1 with h1
+  subst h1
+  obtain ⟨p1, p2, p3⟩ := c01q_pow2_facts hn
+  exact ⟨invQLastModQ, by omega, by omega, p1, p2, p3, hinvQLastModQ, fun hc => absurd ht0 hc, rfl, rfl, rfl, rfl, rfl, fun _ => rfl⟩
+
+theorem c01q_new_inv_t1 {n : Nat} {q : RNSBase} {t : Modulus} {aux : List Modulus} {r : RNSTool}
+    (h : RNSTool.new n q t aux = .ok r) (ht0 : ¬ t.value = 0) : c01q_NewInv n q t r := by
+  unfold RNSTool.new at h
+  split at h
+  · cases h
+  rename_i hqs
+  split at h
+  · cases h
+  rename_i hn
+  dsimp only at h
+  split at h
+  · cases h
+  rename_i hlen
+  obtain ⟨mTilde, hmt, h1⟩ := c01p_bind_ok h; clear h
+  obtain ⟨baseB, hbB, h⟩ := c01p_bind_ok h1; clear h1
+  obtain ⟨baseBsk, hbBsk, h1⟩ := c01p_bind_ok h; clear h
+  obtain ⟨baseBskMt, hbBskMt, h⟩ := c01p_bind_ok h1; clear h1
+  obtain ⟨btg, hbtg, h1⟩ := c01p_bind_ok h; clear h
+  rw [c01p_pure_bind] at h1
+  obtain ⟨bt, hbt, h⟩ := c01p_bind_ok h1; clear h1
+  obtain ⟨cT, hcT, h1⟩ := c01p_bind_ok h; clear h
+  rw [c01p_pure_bind] at h1
+  obtain ⟨qToBsk, hqToBsk, h⟩ := c01p_bind_ok h1; clear h1
+  obtain ⟨bMt, hbMt, h1⟩ := c01p_bind_ok h; clear h
+  obtain ⟨qToMt, hqToMt, h⟩ := c01p_bind_ok h1; clear h1
+  obtain ⟨bToQ, hbToQ, h1⟩ := c01p_bind_ok h; clear h
+  obtain ⟨bMsk, hbMsk, h⟩ := c01p_bind_ok h1; clear h1
+  obtain ⟨bToMsk, hbToMsk, h1⟩ := c01p_bind_ok h; clear h
+  dsimp only at h1
+  obtain ⟨conv, hconv, h⟩ := c01p_bind_ok h1; clear h1
+  rw [c01p_pure_bind] at h
+  obtain ⟨prodBModQ, hprodBModQ, h1⟩ := c01p_bind_ok h; clear h
+  obtain ⟨invProdQModBsk, hinvProdQModBsk, h⟩ := c01p_bind_ok h1; clear h1
+  obtain ⟨tb, htb, h1⟩ := c01p_bind_ok h; clear h
+  obtain ⟨invProdBModMsk, hinvProdBModMsk, h⟩ := c01p_bind_ok h1; clear h1
+  obtain ⟨invMtModBsk, hinvMtModBsk, h1⟩ := c01p_bind_ok h; clear h
+  obtain ⟨tq, htq, h⟩ := c01p_bind_ok h1; clear h1
+  obtain ⟨otq, hotq, h1⟩ := c01p_bind_ok h; clear h
+  cases otq with
+  | none => cases h1
+  | some ivq =>
+  dsimp only at h1
+  obtain ⟨ngq, hngq, h⟩ := c01p_bind_ok h1; clear h1
+  obtain ⟨negInvProdQModMt, hnegInvProdQModMt, h1⟩ := c01p_bind_ok h; clear h
+  obtain ⟨prodQModBsk, hprodQModBsk, h⟩ := c01p_bind_ok h1; clear h1
+  obtain ⟨g, hg, h1⟩ := c01p_bind_ok h; clear h
+  obtain ⟨ig, hig, h⟩ := c01p_bind_ok h1; clear h1
+  obtain ⟨ptg, hptg, h1⟩ := c01p_bind_ok h; clear h
+  obtain ⟨niq, hniq, h⟩ := c01p_bind_ok h1; clear h1
+  rw [c01p_pure_bind] at h
+  dsimp only at h
+  obtain ⟨invQLastModQ, hinvQLastModQ, h1⟩ := c01p_bind_ok h; clear h
+  obtain ⟨oql, hoql, h⟩ := c01p_bind_ok h1; clear h1
+  cases oql with
+  | none => cases h
+  | some ivl =>
+  dsimp only at h
+  rw [c01p_pure_bind] at h
+  injection h with h
+  subst h
+  obtain ⟨p1, p2, p3⟩ := c01q_pow2_facts hn
+  exact ⟨invQLastModQ, by omega, by omega, p1, p2, p3, hinvQLastModQ, fun _ => hoql, rfl, rfl, rfl, rfl, rfl, fun hc => absurd hc ht0⟩
+
+theorem c01q_new_inv {n : Nat} {q : RNSBase} {t : Modulus} {aux : List Modulus} {r : RNSTool}
+    (h : RNSTool.new n q t aux = .ok r) : c01q_NewInv n q t r := by
+  by_cases ht0 : t.value = 0
+  · exact c01q_new_inv_t0 h ht0
+  · exact c01q_new_inv_t1 h ht0
+
+/-! ## Q3: the hypothesis bundles from the model's constructors -/
+
+theorem c01q_base_of_new {ms : List Modulus} {b : RNSBase} (h : RNSBase.new ms = .ok b) : b.base = ms.toArray := by
+  unfold RNSBase.new at h
+  simp only [bind, Except.bind, pure, Except.pure] at h
+  split at h
+  · cases h
+  split at h
+  · cases h
+  split at h
+  · cases h
+  split at h
+  · split at h
+    · cases h
+    injection h with h
+    subst h
+    rfl
+  · split at h
+    · cases h
+    injection h with h
+    subst h
+    rfl
+
+theorem c01q_levelQ_of_toolOK {l : Level} (h : c05u_ToolOK l) : c07s_LevelQ l := ⟨h.bwf, h.base⟩
+
+theorem c01q_levelQ_of_decOK {l : Level} (h : DecOK l) : c07s_LevelQ l := ⟨h.tool.qwf, h.base_eq⟩
+
+theorem c01q_range_get (m i : Nat) (hi : i < (List.range m).length) : (List.range m).get ⟨i, hi⟩ = i := by simp
+
+/-- `c05u_ToolOK` from `RNSBase.new` + `RNSTool.new` -/
+theorem c01q_toolOK_of_new {l : Level} {q : RNSBase} {aux : List Modulus} (hm : ∀ m ∈ l.qs.toList, m.WF)
+    (hq : RNSBase.new l.qs.toList = .ok q) (h : RNSTool.new l.n q l.t aux = .ok l.tool) : c05u_ToolOK l := by
+  obtain ⟨iql, _, h64, _, _, _, hiql, _, rn, _, rq, _, riql, _⟩ := c01q_new_inv h
+  have hb0 : q.base = l.qs := c01q_base_of_new hq
+  have hsz : q.size = l.size := by unfold RNSBase.size Level.size; rw [hb0]
+  have hlen : l.qs.toList.length ≤ 64 := by rw [Array.length_toList]; show l.size ≤ 64; omega
+  obtain ⟨hqwf, _⟩ := RNSBase.new_wf hm hlen hq
+  have hqq : ∀ i, q.q i = l.q i := fun i => by unfold RNSBase.q Level.q; rw [hb0]; rfl
+  refine ⟨by rw [rq]; exact hqwf, by rw [rq]; exact hb0, rn, fun i hi => ?_⟩
+  have hF := RNSH.mapM_ok_inv _ _ _ hiql
+  have hFl := hF.length_eq
+  rw [List.length_range] at hFl
+  have hi1 : i < (List.range (q.size - 1)).length := by rw [List.length_range, hsz]; exact hi
+  have hi2 : i < iql.length := by rw [← hFl, hsz]; exact hi
+  have hstep := List.Forall₂.get hF hi1 hi2
+  rw [c01q_range_get] at hstep
+  have hmi : (q.q i).WF := hqwf.mwf i (by omega)
+  have hml : (q.q (q.size - 1)).WF := hqwf.mwf _ (by omega)
+  have := hml.lt
+  obtain ⟨w1, w2⟩ := c01p_invOf_spec hmi (by omega : (q.q (q.size - 1)).value < 2^63) hstep
+  rw [riql, c01p_getD_toArray _ _ hi2, ← hqq i, ← hqq (l.size - 1), ← hsz]
+  exact ⟨w1, w2⟩
+
+/-- `c05u_BgvOK` from `RNSBase.new` + `RNSTool.new` (plain modulus well formed, i.e. t ≠ 0) -/
+theorem c01q_bgvOK_of_new {l : Level} {q : RNSBase} {aux : List Modulus} (hm : ∀ m ∈ l.qs.toList, m.WF) (ht : l.t.WF)
+    (hq : RNSBase.new l.qs.toList = .ok q) (h : RNSTool.new l.n q l.t aux = .ok l.tool) : c05u_BgvOK l := by
+  obtain ⟨iql, _, h64, _, _, _, _, hinvt, _, _, _, rt, _, _⟩ := c01q_new_inv h
+  have hb0 : q.base = l.qs := c01q_base_of_new hq
+  have hsz : q.size = l.size := by unfold RNSBase.size Level.size; rw [hb0]
+  have hlen : l.qs.toList.length ≤ 64 := by rw [Array.length_toList]; show l.size ≤ 64; omega
+  obtain ⟨hqwf, _⟩ := RNSBase.new_wf hm hlen hq
+  have hqq : ∀ i, q.q i = l.q i := fun i => by unfold RNSBase.q Level.q; rw [hb0]; rfl
+  have ht2 := ht.two_le
+  have hml : (q.q (q.size - 1)).WF := hqwf.mwf _ (by omega)
+  have := hml.lt
+  obtain ⟨w1, w2⟩ := tryInvert_some ht2 ht.lt (by omega : (q.q (q.size - 1)).value < 2^63) (hinvt (by omega))
+  rw [hqq, hsz] at w2
+  exact ⟨rt, ht, w1, w2⟩
+
+/-- `KeyLevel.WF` (C04T) from `NTTTables.new` per modulus -/
+theorem c01q_keyLevelWF_of_new {kl : KeyLevel} {k : Nat} (hn : kl.n = 2^k) (hk : k ≤ 60) (hsz : kl.tables.size = kl.ms.size)
+    (hm : ∀ i, i < kl.ms.size → (kl.m i).WF)
+    (ht : ∀ i, i < kl.ms.size → ∃ pr root0, root0 < 2^64 ∧ NTTTables.new k (kl.m i) pr root0 = .ok (kl.tb i)) : kl.WF := by
+  refine ⟨hsz, fun i hi => ?_⟩
+  obtain ⟨pr, root0, hr, hnew⟩ := ht i hi
+  obtain ⟨h1, h2, h3, _⟩ := NTTTables.new_wf_u64 (hm i hi) hk hr hnew
+  exact ⟨h1, h3, by rw [h2, hn]⟩
+
+/-- a level all of whose parts were produced by the model's constructors -/
+structure c01q_Built (l : Level) : Prop where
+  npow : l.n = 2^l.k
+  klt : l.k ≤ 60
+  tsz : l.tables.size = l.qs.size
+  mwf : ∀ m ∈ l.qs.toList, m.WF
+  tbl : ∀ i, i < l.size → ∃ pr root0, root0 < 2^64 ∧ NTTTables.new l.k (l.q i) pr root0 = .ok (l.tbl i)
+  tool : ∃ q aux, (∀ m ∈ aux, m.WF) ∧ RNSBase.new l.qs.toList = .ok q ∧ RNSTool.new l.n q l.t aux = .ok l.tool
+
+theorem c01q_q_mem {l : Level} {i : Nat} (hi : i < l.size) : l.q i ∈ l.qs.toList := by
+  have hi' : i < l.qs.size := hi
+  have e : l.q i = l.qs.toList[i]'(by simpa using hi') := by
+    simp [Level.q, Array.getD, hi']
+  rw [e]
+  exact List.getElem_mem _
+
+theorem c01q_built_size_le {l : Level} (h : c01q_Built l) : l.qs.size ≤ 64 := by
+  obtain ⟨q, aux, _, hq, hnew⟩ := h.tool
+  obtain ⟨_, _, h64, _⟩ := c01q_new_inv hnew
+  have hb0 : q.base = l.qs := c01q_base_of_new hq
+  have hsz : q.size = l.qs.size := by unfold RNSBase.size; rw [hb0]
+  omega
+
+/-- Q3: every hypothesis bundle of the end-to-end theorems holds for a level built by the constructors -/
+theorem c01q_built_all {l : Level} (h : c01q_Built l) :
+    l.WF ∧ c07s_LevelQ l ∧ c05u_ToolOK l ∧ (l.t.WF → DecOK l ∧ c05u_BgvOK l) := by
+  obtain ⟨q, aux, haux, hq, hnew⟩ := h.tool
+  have hT := c01q_toolOK_of_new h.mwf hq hnew
+  refine ⟨c01p_levelWF_of_new h.npow h.klt h.tsz (fun i hi => h.mwf _ (c01q_q_mem hi)) h.tbl,
+    c01q_levelQ_of_toolOK hT, hT, fun ht => ⟨?_, c01q_bgvOK_of_new h.mwf ht hq hnew⟩⟩
+  exact c01p_decOK_of_new h.mwf (c01q_built_size_le h) ht haux hq hnew
+
+/-! ## Q4: the driver's level constructor `Drv.Sch.mkLevel` -/
+
+theorem c01q_powGo_lt {q : Nat} (hq : 0 < q) (f b e acc : Nat) (ha : acc < q) : powModNat.go q f b e acc < q := by
+  induction f generalizing b e acc with
+  | zero => exact ha
+  | succ f ih =>
+    unfold powModNat.go
+    split
+    · exact ha
+    · apply ih
+      split
+      · exact Nat.mod_lt _ hq
+      · exact ha
+
+theorem c01q_powMod_lt {q : Nat} (hq : 0 < q) (x e : Nat) : Spec.powMod x e q < q := by
+  unfold Spec.powMod powModNat
+  exact c01q_powGo_lt hq _ _ _ _ (Nat.mod_lt _ hq)
+
+/-- the root found by the driver's deterministic search is reduced modulo q -/
+theorem c01q_root_lt {n q g : Nat} (h : Spec.somePrimitiveRoot n q = some g) : 2 ≤ q ∧ g < q ∧ (q - 1) % (2*n) = 0 := by
+  unfold Spec.somePrimitiveRoot at h
+  split at h
+  · cases h
+  rename_i hc
+  have hq2 : 2 ≤ q := by omega
+  refine ⟨hq2, ?_, by omega⟩
+  obtain ⟨c, _, hc2⟩ := List.exists_of_findSome?_eq_some h
+  dsimp only at hc2
+  split at hc2
+  · injection hc2 with hc2
+    rw [← hc2]
+    exact c01q_powMod_lt (by omega) _ _
+  · cases hc2
+
+theorem c01q_mkTables_inv {k q : Nat} {T : NTTTables} (h : Drv.C09.mkTables k q = .ok T) :
+    ∃ m g, Modulus.mk? q = .ok m ∧ 2 ≤ q ∧ g < q ∧ (q - 1) % (2 * 2^k) = 0 ∧
+      NTTTables.new k m (Spec.isPrimeMR q) g = .ok T := by
+  unfold Drv.C09.mkTables at h
+  obtain ⟨m, hm, h1⟩ := c01p_bind_ok h
+  split at h1
+  · cases h1
+  · rename_i g hg
+    obtain ⟨h2, h3, h4⟩ := c01q_root_lt hg
+    exact ⟨m, g, hm, h2, h3, h4, h1⟩
+
+theorem c01q_getPrimesGo (factor lower : Nat) (f v c : Nat) (acc : List Nat) (ha : ∀ x ∈ acc, Spec.isPrimeMR x = true) :
+    ∀ x ∈ Spec.getPrimes.go factor lower f v c acc, Spec.isPrimeMR x = true := by
+  induction f generalizing v c acc with
+  | zero => unfold Spec.getPrimes.go; simpa using ha
+  | succ f ih =>
+    unfold Spec.getPrimes.go
+    split
+    · simpa using ha
+    · split
+      · rename_i hp
+        apply ih
+        intro x hx
+        rcases List.mem_cons.mp hx with rfl | hx
+        · exact hp
+        · exact ha x hx
+      · exact ih _ _ _ ha
+
+theorem c01q_getPrimes_ne_zero {factor bits count x : Nat} (hx : x ∈ Spec.getPrimes factor bits count) : x ≠ 0 := by
+  have h := c01q_getPrimesGo factor (2^(bits-1)) 200000 ((2 ^ bits - 1) / factor * factor + 1) count [] (by simp) x hx
+  rintro rfl
+  revert h
+  decide
+
+theorem c01q_forall2_right {α β : Type} {R : α → β → Prop} {as : List α} {bs : List β} (h : List.Forall₂ R as bs)
+    {b : β} (hb : b ∈ bs) : ∃ a ∈ as, R a b := by
+  induction h with
+  | nil => cases hb
+  | cons hab _ ih =>
+    rcases List.mem_cons.mp hb with rfl | hb
+    · exact ⟨_, by simp, hab⟩
+    · obtain ⟨a, ha, hr⟩ := ih hb
+      exact ⟨a, by simp [ha], hr⟩
+
+theorem c01q_pow2_log {n : Nat} (h : isPow2 n = true) : n = 2^(Nat.log2 n) := by
+  unfold isPow2 at h
+  have h' : n ≠ 0 ∧ n &&& (n - 1) = 0 := by simpa using h
+  obtain ⟨k, hk⟩ := Nat.ne_zero_and_sub_one_eq_zero_iff_isPowerOfTwo.mp h'
+  rw [hk, Nat.log2_two_pow]
+
+theorem c01q_log_le {n : Nat} (h : n = 2^(Nat.log2 n)) (hn : n ≤ 131072) : Nat.log2 n ≤ 60 := by
+  by_contra hc
+  have : 2^61 ≤ 2^(Nat.log2 n) := Nat.pow_le_pow_right (by norm_num) (by omega)
+  have h2 : (2:Nat)^61 = 2305843009213693952 := by norm_num
+  omega
+
+/-- inversion of the driver's `mkLevel` -/
+theorem c01q_mkLevel_inv {scheme : Scheme} {n : Nat} {qs : List Nat} {t : Nat} {l : Level}
+    (h : Drv.Sch.mkLevel scheme n qs t = .ok l) :
+    ∃ ms tm tbl q aux tool,
+      qs.mapM Modulus.mk? = .ok ms ∧ Modulus.mk? t = .ok tm ∧ qs.mapM (fun q => Drv.C09.mkTables (Nat.log2 n) q) = .ok tbl ∧
+      RNSBase.new ms = .ok q ∧ (Spec.getPrimes (2*n) 61 (q.size + 4)).mapM Modulus.mk? = .ok aux ∧
+      RNSTool.new n q tm aux = .ok tool ∧ l = ⟨scheme, n, Nat.log2 n, ms.toArray, tm, tbl.toArray, tool⟩ := by
+  unfold Drv.Sch.mkLevel at h
+  dsimp only at h
+  obtain ⟨ms, hms, h1⟩ := c01p_bind_ok h; clear h
+  obtain ⟨tm, htm, h⟩ := c01p_bind_ok h1; clear h1
+  obtain ⟨tb, htb, h1⟩ := c01p_bind_ok h; clear h
+  obtain ⟨tool, htool, h⟩ := c01p_bind_ok h1; clear h1
+  unfold Drv.C10.mkTablesAll at htb
+  obtain ⟨tbl, htbl, h2⟩ := c01p_bind_ok htb
+  unfold Drv.C10.mkTool Drv.C10.mkBase at htool
+  obtain ⟨q, hq, h3⟩ := c01p_bind_ok htool
+  obtain ⟨ms', hms', hq'⟩ := c01p_bind_ok hq
+  obtain ⟨tm', htm', h4⟩ := c01p_bind_ok h3
+  obtain ⟨aux, haux, h5⟩ := c01p_bind_ok h4
+  unfold Drv.C10.mkMods at hms hms'
+  unfold Drv.C10.auxPrimes Drv.C10.mkMods at haux
+  rw [hms] at hms'
+  injection hms' with hms'
+  subst hms'
+  rw [htm] at htm'
+  injection htm' with htm'
+  subst htm'
+  injection h2 with h2
+  injection h with h
+  subst h2
+  exact ⟨ms, tm, tbl, q, aux, tool, hms, htm, htbl, hq', haux, h5, h.symm⟩
+
+theorem c01q_forall2_left {α β : Type} {R : α → β → Prop} {as : List α} {bs : List β} (h : List.Forall₂ R as bs)
+    {a : α} (ha : a ∈ as) : ∃ b ∈ bs, R a b := by
+  induction h with
+  | nil => cases ha
+  | cons hab _ ih =>
+    rcases List.mem_cons.mp ha with rfl | ha
+    · exact ⟨_, by simp, hab⟩
+    · obtain ⟨b, hb, hr⟩ := ih ha
+      exact ⟨b, by simp [hb], hr⟩
+
+theorem c01q_forall2_map {α β : Type} {R : α → β → Prop} {as : List α} {bs : List β} (h : List.Forall₂ R as bs)
+    (f : β → α) (hf : ∀ a b, R a b → f b = a) : bs.map f = as := by
+  induction h with
+  | nil => rfl
+  | cons hab _ ih => rw [List.map_cons, ih, hf _ _ hab]
+
+theorem c01q_mk_value {v : Nat} {m : Modulus} (h : Modulus.mk? v = .ok m) : m.value = v := by
+  by_cases hv : v = 0
+  · subst hv
+    unfold Modulus.mk? at h
+    rw [if_pos rfl] at h
+    injection h with h
+    rw [← h]
+  · exact (Modulus.mk?_wf h hv).2
+
+/-- Q4 core: whatever `mkLevel` returns was built by the model's constructors, and its fields are the driver's inputs -/
+theorem c01q_mkLevel_built {scheme : Scheme} {n : Nat} {qs : List Nat} {t : Nat} {l : Level}
+    (h : Drv.Sch.mkLevel scheme n qs t = .ok l) :
+    c01q_Built l ∧ l.scheme = scheme ∧ l.n = n ∧ l.k = Nat.log2 n ∧ c01p_qvals l = qs ∧ l.t.value = t ∧ (t ≠ 0 → l.t.WF) := by
+  obtain ⟨ms, tm, tbl, q, aux, tool, hms, htm, htbl, hq, haux, hnew, rfl⟩ := c01q_mkLevel_inv h
+  have hF1 := RNSH.mapM_ok_inv _ _ _ hms
+  have hF2 := RNSH.mapM_ok_inv _ _ _ htbl
+  have hF3 := RNSH.mapM_ok_inv _ _ _ haux
+  obtain ⟨_, _, _, hp2, _, hn131, _⟩ := c01q_new_inv hnew
+  have hnpow := c01q_pow2_log hp2
+  have hq2 : ∀ v ∈ qs, 2 ≤ v := by
+    intro v hv
+    obtain ⟨T, _, hT⟩ := c01q_forall2_left hF2 hv
+    obtain ⟨_, _, _, h2, _⟩ := c01q_mkTables_inv hT
+    exact h2
+  have hmwf : ∀ m ∈ ms, m.WF := by
+    intro m hm
+    obtain ⟨v, hv, hvm⟩ := c01q_forall2_right hF1 hm
+    have := hq2 v hv
+    exact (Modulus.mk?_wf hvm (by omega)).1
+  have hauxwf : ∀ m ∈ aux, m.WF := by
+    intro m hm
+    obtain ⟨v, hv, hvm⟩ := c01q_forall2_right hF3 hm
+    exact (Modulus.mk?_wf hvm (c01q_getPrimes_ne_zero hv)).1
+  have hl1 := hF1.length_eq
+  have hl2 := hF2.length_eq
+  refine ⟨⟨hnpow, c01q_log_le hnpow hn131, ?_, hmwf, ?_, ⟨q, aux, hauxwf, hq, hnew⟩⟩, rfl, rfl, rfl, ?_, c01q_mk_value htm, ?_⟩
+  · show tbl.toArray.size = ms.toArray.size
+    simp only [List.size_toArray]
+    omega
+  · intro i hi
+    have hi1 : i < ms.length := by simpa [Level.size] using hi
+    have hi0 : i < qs.length := by omega
+    have hi2 : i < tbl.length := by omega
+    have e1 : (⟨scheme, n, Nat.log2 n, ms.toArray, tm, tbl.toArray, tool⟩ : Level).q i = ms.get ⟨i, hi1⟩ := by
+      simp [Level.q, Array.getD, hi1]
+    have e2 : (⟨scheme, n, Nat.log2 n, ms.toArray, tm, tbl.toArray, tool⟩ : Level).tbl i = tbl.get ⟨i, hi2⟩ := by
+      simp [Level.tbl, Array.getD, hi2]
+    rw [e1, e2]
+    have s1 := List.Forall₂.get hF1 hi0 hi1
+    have s2 := List.Forall₂.get hF2 hi0 hi2
+    obtain ⟨m, g, hm, _, hg, _, hT⟩ := c01q_mkTables_inv s2
+    rw [s1] at hm
+    injection hm with hm
+    subst hm
+    have hw := hmwf _ (List.get_mem ms ⟨i, hi1⟩)
+    have hv := c01q_mk_value s1
+    have := hw.lt
+    exact ⟨_, g, by omega, hT⟩
+  · show (ms.toArray.toList.map (·.value)) = qs
+    exact c01q_forall2_map hF1 _ (fun a b hab => c01q_mk_value hab)
+  · intro ht0
+    exact (Modulus.mk?_wf htm ht0).1
+
 /-! ## Property theorems -/
 
 /-- Q1 (BFV, ANY size ≥ 2, coefficient form): the model's `bfvDecrypt` equals the exact-integer specification
@@ -493,5 +944,367 @@ theorem ckksDecrypt_refuses_small (l : Level) (sk : Array Int) (ct : Ct) (h : ct
   · unfold dotProductCtSk
     simp only [bind, Except.bind]
     rw [if_pos h]
+
+
+/-! ### Q3: the bundles from the constructors (`c01q_toolOK_of_new`, `c01q_bgvOK_of_new`, `c01q_keyLevelWF_of_new`, `c01q_built_all`
+    above); re-exports -/
+
+/-- `c07s_LevelQ` from `RNSBase.new` (re-export of C07S) -/
+theorem c01q_levelQ_of_new {l : Level} (hl : l.WF) (h64 : l.qs.size ≤ 64) (h : RNSBase.new l.qs.toList = .ok l.tool.baseQ) :
+    c07s_LevelQ l := c07s_levelQ_of_new hl h64 h
+
+/-- Q3, all bundles at once, from `RNSBase.new`, `RNSTool.new`, `NTTTables.new` (bundle `c01q_Built` = literally these calls) -/
+theorem level_bundles_of_constructors {l : Level} (h : c01q_Built l) :
+    l.WF ∧ c07s_LevelQ l ∧ c05u_ToolOK l ∧ (l.t.WF → DecOK l ∧ c05u_BgvOK l) := c01q_built_all h
+
+/-! ### Q4: the driver's `mkLevel` -/
+
+/-- Q4: every level returned by the driver's `Drv.Sch.mkLevel` satisfies all hypothesis bundles of the end-to-end theorems —
+    with NO hypothesis on the inputs (everything needed is checked by the constructors the driver calls) — and its fields are
+    the driver's inputs.  The plain-modulus bundles (`DecOK`, `c05u_BgvOK`) need t ≠ 0 (for t = 0, the CKKS case, the tool has
+    no such constants: see `mkLevel_t0`). -/
+theorem mkLevel_ok {scheme : Scheme} {n : Nat} {qs : List Nat} {t : Nat} {l : Level}
+    (h : Drv.Sch.mkLevel scheme n qs t = .ok l) :
+    l.WF ∧ c07s_LevelQ l ∧ c05u_ToolOK l ∧ (t ≠ 0 → DecOK l ∧ c05u_BgvOK l) ∧
+    l.scheme = scheme ∧ l.n = n ∧ l.k = Nat.log2 n ∧ c01p_qvals l = qs ∧ l.t.value = t := by
+  obtain ⟨hb, f1, f2, f3, f4, f5, f6⟩ := c01q_mkLevel_built h
+  obtain ⟨a1, a2, a3, a4⟩ := c01q_built_all hb
+  exact ⟨a1, a2, a3, fun ht => a4 (f6 ht), f1, f2, f3, f4, f5⟩
+
+/-- with t = 0 the tool carries no plain-modulus constants, and BFV decryption at such a level refuses -/
+theorem mkLevel_t0 {scheme : Scheme} {n : Nat} {qs : List Nat} {l : Level}
+    (h : Drv.Sch.mkLevel scheme n qs 0 = .ok l) : l.tool.baseTGamma = none ∧ ¬ DecOK l := by
+  obtain ⟨ms, tm, tbl, q, aux, tool, _, htm, _, _, _, hnew, rfl⟩ := c01q_mkLevel_inv h
+  have hv := c01q_mk_value htm
+  obtain ⟨_, _, _, _, _, _, _, _, _, _, _, _, _, hnone⟩ := c01q_new_inv hnew
+  refine ⟨hnone hv, fun hd => ?_⟩
+  obtain ⟨btg, _, _, hs, _⟩ := hd.tool.tg
+  rw [hnone hv] at hs
+  cases hs
+
+/-- necessary conditions on the inputs (contrapositive = refusals of `mkLevel`): degree a power of two in [2, 2^17],
+    between 1 and 64 moduli, each in [2, 2^61), ≡ 1 mod 2n, accepted by the Miller–Rabin test -/
+theorem mkLevel_ok_inputs {scheme : Scheme} {n : Nat} {qs : List Nat} {t : Nat} {l : Level}
+    (h : Drv.Sch.mkLevel scheme n qs t = .ok l) :
+    isPow2 n = true ∧ 2 ≤ n ∧ n ≤ 131072 ∧ 1 ≤ qs.length ∧ qs.length ≤ 64 ∧ t < 2^61 ∧ t ≠ 1 ∧
+    ∀ v ∈ qs, 2 ≤ v ∧ v < 2^61 ∧ (v - 1) % (2*n) = 0 ∧ Spec.isPrimeMR v = true := by
+  obtain ⟨ms, tm, tbl, q, aux, tool, hms, htm, htbl, hq, _, hnew, rfl⟩ := c01q_mkLevel_inv h
+  obtain ⟨_, h1, h64, hp2, hn2, hn131, _⟩ := c01q_new_inv hnew
+  have hF1 := RNSH.mapM_ok_inv _ _ _ hms
+  have hF2 := RNSH.mapM_ok_inv _ _ _ htbl
+  have hb0 : q.base = ms.toArray := c01q_base_of_new hq
+  have hsz : q.size = ms.length := by unfold RNSBase.size; rw [hb0]; simp
+  have hl := hF1.length_eq
+  have hnpow := c01q_pow2_log hp2
+  have ht : t < 2^61 ∧ t ≠ 1 := by
+    by_cases ht0 : t = 0
+    · subst ht0; exact ⟨by norm_num, by omega⟩
+    · have hw := Modulus.mk?_wf htm ht0
+      have := hw.1.two_le; have := hw.1.lt
+      rw [hw.2] at *
+      exact ⟨by omega, by omega⟩
+  refine ⟨hp2, hn2, hn131, by omega, by omega, ht.1, ht.2, fun v hv => ?_⟩
+  obtain ⟨T, _, hT⟩ := c01q_forall2_left hF2 hv
+  obtain ⟨m, g, hm, h2, hg, hdiv, hnewT⟩ := c01q_mkTables_inv hT
+  have hw := Modulus.mk?_wf hm (by omega)
+  have hlt := hw.1.lt
+  rw [hw.2] at hlt
+  obtain ⟨_, _, _, hpr⟩ := NTTTables.new_wf_u64 hw.1 (c01q_log_le hnpow hn131) (by omega : g < 2^64) hnewT
+  rw [← hnpow] at hdiv
+  exact ⟨h2, hlt, hdiv, hpr⟩
+
+theorem c01q_coeffPolys_false (l : Level) (polys : Array RnsPoly) (cf : Nat) :
+    Drv.Sch.coeffPolys l ⟨polys, false, cf⟩ = polys.toList := by
+  unfold Drv.Sch.coeffPolys
+  simp
+
+theorem c01q_coeffPolys_true (l : Level) (polys : Array RnsPoly) (cf : Nat) :
+    Drv.Sch.coeffPolys l ⟨polys, true, cf⟩ = polys.toList.map (rnsIntt l) := by
+  unfold Drv.Sch.coeffPolys
+  simp
+
+/-- END TO END on the driver's objects (BFV): for the level the driver builds, the model's decryption equals the expression the
+    driver's oracle `exactDec` evaluates (`trim (bfvDecode t (prodL qs) (exactPhase …))`), for every size ≥ 2, under the BEHZ
+    γ-condition on the exact phase -/
+theorem mkLevel_bfvDecrypt_eq_oracle {scheme : Scheme} {n : Nat} {qs : List Nat} {t : Nat} {l : Level}
+    (h : Drv.Sch.mkLevel scheme n qs t = .ok l) (ht : t ≠ 0) {sk : Array Int} (hsk : sk.size = n)
+    {polys : Array RnsPoly} (h2 : 2 ≤ polys.size) (hc : ∀ k, k < polys.size → RnsCanon l (polys.getD k #[])) (cf : Nat)
+    (hnoise : BehzDecryptOK l (Drv.Sch.exactPhase l qs sk ⟨polys, false, cf⟩)) :
+    bfvDecrypt l sk ⟨polys, false, cf⟩ =
+      .ok (Spec.trim (Spec.bfvDecode t (Spec.prodL qs) (Drv.Sch.exactPhase l qs sk ⟨polys, false, cf⟩))) := by
+  obtain ⟨hl, _, _, hd, _, f2, _, f4, f5⟩ := mkLevel_ok h
+  unfold Drv.Sch.exactPhase at hnoise ⊢
+  rw [c01q_coeffPolys_false, ← f4] at hnoise ⊢
+  rw [← f5]
+  exact bfvDecrypt_eq_spec hl (hd ht).1 (by rw [f2]; exact hsk) h2 hc cf hnoise
+
+/-- END TO END on the driver's objects (BGV) -/
+theorem mkLevel_bgvDecrypt_eq_oracle {scheme : Scheme} {n : Nat} {qs : List Nat} {t : Nat} {l : Level}
+    (h : Drv.Sch.mkLevel scheme n qs t = .ok l) (ht : t ≠ 0) {sk : Array Int} (hsk : sk.size = n)
+    {polys : Array RnsPoly} (h2 : 2 ≤ polys.size) (hc : ∀ k, k < polys.size → RnsCanon l (polys.getD k #[]))
+    {cf : Nat} (hcf : cf < 2^63) (hcop : Nat.Coprime cf t)
+    (htie : ∀ j, j < n → 2 * (Drv.Sch.exactPhase l qs sk ⟨polys, true, cf⟩).getD j 0 ≠ (Spec.prodL qs : Int)) :
+    bgvDecrypt l sk ⟨polys, true, cf⟩ =
+      .ok (Spec.trim (Spec.bgvDecode t cf (Drv.Sch.exactPhase l qs sk ⟨polys, true, cf⟩))) := by
+  obtain ⟨hl, _, _, hd, _, f2, _, f4, f5⟩ := mkLevel_ok h
+  unfold Drv.Sch.exactPhase at htie ⊢
+  rw [c01q_coeffPolys_true, ← f4] at htie ⊢
+  rw [← f5] at hcop ⊢
+  refine bgvDecrypt_eq_spec hl (hd ht).1 (by rw [f2]; exact hsk) h2 hc hcf hcop ?_
+  intro j hj
+  exact htie j (by rw [← f2]; exact hj)
+
+/-- END TO END on the driver's objects (CKKS, any t): the model returns exactly the oracle's value -/
+theorem mkLevel_ckksDecrypt_eq_oracle {scheme : Scheme} {n : Nat} {qs : List Nat} {t : Nat} {l : Level}
+    (h : Drv.Sch.mkLevel scheme n qs t = .ok l) {sk : Array Int} (hsk : sk.size = n)
+    {polys : Array RnsPoly} (h2 : 2 ≤ polys.size) (hc : ∀ k, k < polys.size → RnsCanon l (polys.getD k #[])) (cf : Nat) :
+    ckksDecrypt l sk ⟨polys, true, cf⟩ =
+      .ok (Array.ofFn (n := l.size) fun i =>
+        ntt (l.tbl i.val) ((Drv.Sch.exactPhase l qs sk ⟨polys, true, cf⟩).map fun x => Spec.imod x (l.q i.val).value)) := by
+  obtain ⟨hl, hq, _, _, _, f2, _, f4, _⟩ := mkLevel_ok h
+  unfold Drv.Sch.exactPhase
+  rw [c01q_coeffPolys_true, ← f4]
+  exact ckksDecrypt_eq_spec hl hq (by rw [f2]; exact hsk) h2 hc cf
+
+/-! ### non-vacuity: the driver's constructor succeeds on concrete inputs (so `c01q_Built` and all bundles are inhabited) -/
+
+theorem c01q_mkLevel_ex : ∃ l, Drv.Sch.mkLevel .bfv 4 [97, 113] 17 = .ok l := by
+  have h : (Drv.Sch.mkLevel .bfv 4 [97, 113] 17).toOption.isSome = true := by decide +kernel
+  cases hl : Drv.Sch.mkLevel .bfv 4 [97, 113] 17 with
+  | error e => rw [hl] at h; cases h
+  | ok l => exact ⟨l, rfl⟩
+
+theorem c01q_mkLevel_ex0 : ∃ l, Drv.Sch.mkLevel .ckks 4 [97, 113] 0 = .ok l := by
+  have h : (Drv.Sch.mkLevel .ckks 4 [97, 113] 0).toOption.isSome = true := by decide +kernel
+  cases hl : Drv.Sch.mkLevel .ckks 4 [97, 113] 0 with
+  | error e => rw [hl] at h; cases h
+  | ok l => exact ⟨l, rfl⟩
+
+theorem c01q_built_satisfiable : ∃ l, c01q_Built l ∧ l.t.WF ∧ c01p_qvals l = [97, 113] ∧ l.n = 4 := by
+  obtain ⟨l, hl⟩ := c01q_mkLevel_ex
+  obtain ⟨hb, _, f2, _, f4, _, f6⟩ := c01q_mkLevel_built hl
+  exact ⟨l, hb, f6 (by decide), f4, f2⟩
+
+/-! ### a complete concrete instance (size 3) on the level the driver builds for N = 4, q = {97, 113}, t = 17 -/
+
+def c01q_exL : Level := (Drv.Sch.mkLevel .bfv 4 [97, 113] 17).toOption.getD default
+
+theorem c01q_exL_ok : Drv.Sch.mkLevel .bfv 4 [97, 113] 17 = .ok c01q_exL := by
+  have h : (Drv.Sch.mkLevel .bfv 4 [97, 113] 17).toOption.isSome = true := by decide +kernel
+  unfold c01q_exL
+  cases hl : Drv.Sch.mkLevel .bfv 4 [97, 113] 17 with
+  | error e => rw [hl] at h; cases h
+  | ok l => rfl
+
+def c01q_exSk : Array Int := #[1, 0, -1, 1]
+def c01q_exPolys : Array RnsPoly :=
+  #[#[#[5, 96, 3, 0], #[112, 7, 0, 1]], #[#[1, 2, 3, 4], #[4, 3, 2, 1]], #[#[0, 1, 0, 96], #[1, 0, 112, 0]]]
+
+@[instance_reducible] def c01q_decRnsCanon (l : Level) (p : RnsPoly) : Decidable (RnsCanon l p) :=
+  inferInstanceAs (Decidable (p.size = l.size ∧ ∀ i, i < l.size → (p.getD i #[]).size = l.n ∧
+    ∀ j, j < l.n → (p.getD i #[]).getD j 0 < (l.q i).value))
+attribute [local instance] c01q_decRnsCanon
+
+theorem c01q_ex_canon : ∀ k, k < c01q_exPolys.size → RnsCanon c01q_exL (c01q_exPolys.getD k #[]) := by decide +kernel
+
+theorem c01q_ex_behz :
+    BehzDecryptOK c01q_exL (Drv.Sch.exactPhase c01q_exL [97, 113] c01q_exSk ⟨c01q_exPolys, false, 1⟩) := by
+  unfold BehzDecryptOK
+  decide +kernel
+
+/-- all hypotheses of `mkLevel_bfvDecrypt_eq_oracle` hold simultaneously for a size-3 ciphertext on a level the driver builds -/
+theorem c01q_hypotheses_satisfiable :
+    ∃ (l : Level) (sk : Array Int) (polys : Array RnsPoly), Drv.Sch.mkLevel .bfv 4 [97, 113] 17 = .ok l ∧ sk.size = 4 ∧
+      polys.size = 3 ∧ (∀ k, k < polys.size → RnsCanon l (polys.getD k #[])) ∧
+      BehzDecryptOK l (Drv.Sch.exactPhase l [97, 113] sk ⟨polys, false, 1⟩) :=
+  ⟨c01q_exL, c01q_exSk, c01q_exPolys, c01q_exL_ok, rfl, rfl, c01q_ex_canon, c01q_ex_behz⟩
+
+theorem c01q_ex_decrypt :
+    bfvDecrypt c01q_exL c01q_exSk ⟨c01q_exPolys, false, 1⟩ =
+      .ok (Spec.trim (Spec.bfvDecode 17 (Spec.prodL [97, 113])
+        (Drv.Sch.exactPhase c01q_exL [97, 113] c01q_exSk ⟨c01q_exPolys, false, 1⟩))) :=
+  mkLevel_bfvDecrypt_eq_oracle c01q_exL_ok (by decide) rfl (by decide) c01q_ex_canon 1 c01q_ex_behz
+
+/-! ### the driver's two columns (`modelDec` = model, `exactDec` = oracle) agree -/
+
+/-- BFV: whenever the oracle commits to a value (`bfvSafe`) and the BEHZ γ-condition holds, the two strings the driver
+    compares are equal -/
+theorem driver_dec_bfv {n : Nat} {qs : List Nat} {t : Nat} {l : Level}
+    (h : Drv.Sch.mkLevel .bfv n qs t = .ok l) (ht : t ≠ 0) {sk : Array Int} (hsk : sk.size = n)
+    {polys : Array RnsPoly} (h2 : 2 ≤ polys.size) (hc : ∀ k, k < polys.size → RnsCanon l (polys.getD k #[])) (cf : Nat)
+    (hnoise : BehzDecryptOK l (Drv.Sch.exactPhase l qs sk ⟨polys, false, cf⟩))
+    (hsafe : Drv.Sch.bfvSafe t (Spec.prodL qs) (Drv.Sch.exactPhase l qs sk ⟨polys, false, cf⟩) = true) :
+    Drv.Sch.modelDec ⟨.bfv, n, qs, t, sk, ⟨polys, false, cf⟩⟩ = Drv.Sch.exactDec ⟨.bfv, n, qs, t, sk, ⟨polys, false, cf⟩⟩ := by
+  unfold Drv.Sch.modelDec Drv.Sch.exactDec
+  simp only [h]
+  rw [mkLevel_bfvDecrypt_eq_oracle h ht hsk h2 hc cf hnoise, if_neg (by omega), if_neg (by simp), if_pos hsafe]
+  rfl
+
+/-- CKKS: the two strings are equal for every canonical NTT-form ciphertext of size ≥ 2 -/
+theorem driver_dec_ckks {n : Nat} {qs : List Nat} {t : Nat} {l : Level}
+    (h : Drv.Sch.mkLevel .ckks n qs t = .ok l) {sk : Array Int} (hsk : sk.size = n)
+    {polys : Array RnsPoly} (h2 : 2 ≤ polys.size) (hc : ∀ k, k < polys.size → RnsCanon l (polys.getD k #[])) (cf : Nat) :
+    Drv.Sch.modelDec ⟨.ckks, n, qs, t, sk, ⟨polys, true, cf⟩⟩ = Drv.Sch.exactDec ⟨.ckks, n, qs, t, sk, ⟨polys, true, cf⟩⟩ := by
+  unfold Drv.Sch.modelDec Drv.Sch.exactDec
+  simp only [h]
+  rw [mkLevel_ckksDecrypt_eq_oracle h hsk h2 hc cf, if_neg (by omega), if_neg (by simp)]
+  rfl
+
+/-- BGV: whenever the oracle commits to a value, the two strings are equal -/
+theorem driver_dec_bgv {n : Nat} {qs : List Nat} {t : Nat} {l : Level}
+    (h : Drv.Sch.mkLevel .bgv n qs t = .ok l) (ht : t ≠ 0) {sk : Array Int} (hsk : sk.size = n)
+    {polys : Array RnsPoly} (h2 : 2 ≤ polys.size) (hc : ∀ k, k < polys.size → RnsCanon l (polys.getD k #[]))
+    {cf : Nat} (hcf : cf < 2^63) (hcop : Nat.Coprime cf t)
+    (htie : ∀ j, j < n → 2 * (Drv.Sch.exactPhase l qs sk ⟨polys, true, cf⟩).getD j 0 ≠ (Spec.prodL qs : Int))
+    (hsafe : (Drv.Sch.exactPhase l qs sk ⟨polys, true, cf⟩).all
+      (fun x => (Spec.prodL qs - 2 * x.natAbs) * 2^40 > Spec.prodL qs) = true) :
+    Drv.Sch.modelDec ⟨.bgv, n, qs, t, sk, ⟨polys, true, cf⟩⟩ = Drv.Sch.exactDec ⟨.bgv, n, qs, t, sk, ⟨polys, true, cf⟩⟩ := by
+  unfold Drv.Sch.modelDec Drv.Sch.exactDec
+  simp only [h]
+  rw [mkLevel_bgvDecrypt_eq_oracle h ht hsk h2 hc hcf hcop htie, if_neg (by omega), if_neg (by simp), if_pos hsafe]
+  rfl
+
+/-! ### the oracle's safety test implies the BEHZ γ-condition on driver-built levels -/
+
+theorem c01q_getPrimesGo' (P : Nat → Prop) (factor lower : Nat) (hP : ∀ v, lower < v → P v) (f v c : Nat) (acc : List Nat)
+    (ha : ∀ x ∈ acc, P x) : ∀ x ∈ Spec.getPrimes.go factor lower f v c acc, P x := by
+  induction f generalizing v c acc with
+  | zero => unfold Spec.getPrimes.go; simpa using ha
+  | succ f ih =>
+    unfold Spec.getPrimes.go
+    split
+    · simpa using ha
+    · rename_i hc
+      split
+      · apply ih
+        intro x hx
+        rcases List.mem_cons.mp hx with rfl | hx
+        · exact hP _ (by omega)
+        · exact ha x hx
+      · exact ih _ _ _ ha
+
+theorem c01q_getPrimes_gt {factor bits count x : Nat} (hx : x ∈ Spec.getPrimes factor bits count) : 2^(bits-1) < x :=
+  c01q_getPrimesGo' (fun v => 2^(bits-1) < v) factor (2^(bits-1)) (fun _ h => h) 200000 _ count [] (by simp) x hx
+
+/-- margin of the oracle = Q - 2|e| with e = a - Q·round(a/Q) -/
+theorem c01q_margin {Q : Nat} (hQ : 0 < Q) (a : Int) :
+    (Spec.roundMargin a Q : Int) = (Q : Int) - 2 * |a - (Q : Int) * Spec.roundDiv a Q| := by
+  unfold Spec.roundMargin Spec.roundDiv
+  have h1 := c07l_imod_cast (Q := 2 * Q) (by omega) (2 * a + Q)
+  have h2 := c07l_imod_lt (Q := 2 * Q) (by omega) (2 * a + Q)
+  generalize Spec.imod (2 * a + (Q : Int)) (2 * Q) = fr at h1 h2
+  have h3 := Int.emod_add_mul_ediv (2 * a + (Q : Int)) (2 * (Q : Int))
+  push_cast at h1
+  show ((min fr (2 * Q - fr) : Nat) : Int) = _
+  generalize (2 * a + (Q : Int)) / (2 * (Q : Int)) = rd at h3 ⊢
+  have he : 2 * (a - (Q : Int) * rd) = (fr : Int) - Q := by rw [← h1] at h3; linarith
+  rcases abs_cases (a - (Q : Int) * rd) with ⟨e1, e2⟩ | ⟨e1, e2⟩
+  · rw [e1]; omega
+  · rw [e1]; omega
+
+theorem c01q_behz_of_margin {l : Level} (hg : 2^60 < l.tool.gamma.value) (hk : l.size ≤ 64)
+    (hQ : 0 < Spec.prodL (c01p_qvals l)) {ph : Spec.ZPoly}
+    (hm : ∀ j, j < l.n → Spec.roundMargin ((l.t.value : Int) * ph.getD j 0) (Spec.prodL (c01p_qvals l)) * 2^40 >
+      2 * Spec.prodL (c01p_qvals l)) : BehzDecryptOK l ph := by
+  intro j hj
+  have h1 := hm j hj
+  have hmar := c01q_margin hQ ((l.t.value : Int) * ph.getD j 0)
+  generalize Spec.roundMargin ((l.t.value : Int) * ph.getD j 0) (Spec.prodL (c01p_qvals l)) = M at h1 hmar
+  generalize |(l.t.value : Int) * ph.getD j 0 - (Spec.prodL (c01p_qvals l) : Int) *
+    Spec.roundDiv ((l.t.value : Int) * ph.getD j 0) (Spec.prodL (c01p_qvals l))| = E at hmar ⊢
+  generalize Spec.prodL (c01p_qvals l) = Q at *
+  generalize l.tool.gamma.value = γ at *
+  generalize l.size = k at *
+  have h1' : 2 * (Q : Int) < (M : Int) * 2^40 := by exact_mod_cast h1
+  have hγ : (2 : Int)^60 ≤ (γ : Int) := by exact_mod_cast hg.le
+  have hk' : (k : Int) ≤ 64 := by exact_mod_cast hk
+  have hQ0 : (0 : Int) ≤ (Q : Int) := Int.natCast_nonneg _
+  have hM0 : (0 : Int) ≤ (M : Int) := Int.natCast_nonneg _
+  have p1 := mul_le_mul_of_nonneg_right hγ hM0
+  have p2 := mul_le_mul_of_nonneg_right hk' hQ0
+  have p3 : (γ : Int) * M = γ * Q - 2 * (γ * E) := by rw [hmar]; ring
+  norm_num at p1 h1'
+  linarith
+
+theorem c01q_behz_of_bfvSafe {l : Level} (hg : 2^60 < l.tool.gamma.value) (hk : l.size ≤ 64)
+    (hQ : 0 < Spec.prodL (c01p_qvals l)) {ph : Spec.ZPoly} (hs : ph.size = l.n)
+    (hsafe : Drv.Sch.bfvSafe l.t.value (Spec.prodL (c01p_qvals l)) ph = true) : BehzDecryptOK l ph := by
+  apply c01q_behz_of_margin hg hk hQ
+  intro j hj
+  unfold Drv.Sch.bfvSafe at hsafe
+  rw [Array.all_eq_true] at hsafe
+  have hj' : j < ph.size := by rw [hs]; exact hj
+  have := hsafe j hj'
+  have e : ph.getD j 0 = ph[j] := by simp [Array.getD, hj']
+  rw [e]
+  exact of_decide_eq_true this
+
+/-- the auxiliary prime γ of a driver-built tool is a 61-bit number -/
+theorem c01q_mkLevel_gamma {scheme : Scheme} {n : Nat} {qs : List Nat} {t : Nat} {l : Level}
+    (h : Drv.Sch.mkLevel scheme n qs t = .ok l) (ht : t ≠ 0) : 2^60 < l.tool.gamma.value := by
+  obtain ⟨ms, tm, tbl, q, aux, tool, _, htm, _, _, haux, hnew, rfl⟩ := c01q_mkLevel_inv h
+  have hv := c01q_mk_value htm
+  obtain ⟨_, _, _, _, _, _, _, _, hlen, _, _, _, _, _, _, _, _, _, _, _, _, rgam, _⟩ := c01p_new_inv hnew (by rw [hv]; exact ht)
+  have hF3 := RNSH.mapM_ok_inv _ _ _ haux
+  have hmem : aux.getD 1 default ∈ aux := by
+    have e : aux.getD 1 default = aux[1] := by
+      simp [List.getD, List.getElem?_eq_getElem (by omega : 1 < aux.length)]
+    rw [e]; exact List.getElem_mem _
+  obtain ⟨v, hv1, hv2⟩ := c01q_forall2_right hF3 hmem
+  show 2^60 < tool.gamma.value
+  rw [rgam, c01q_mk_value hv2]
+  exact c01q_getPrimes_gt hv1
+
+/-- BFV, the driver's two columns: whenever the oracle commits to a value (`bfvSafe`), the model's output string equals the
+    oracle's — for EVERY canonical coefficient-form ciphertext of size ≥ 2, with no further hypothesis (the oracle's safety
+    margin 2^-40 implies the BEHZ γ-condition because γ > 2^60 and there are at most 64 moduli) -/
+theorem driver_dec_bfv_safe {n : Nat} {qs : List Nat} {t : Nat} {l : Level}
+    (h : Drv.Sch.mkLevel .bfv n qs t = .ok l) (ht : t ≠ 0) {sk : Array Int} (hsk : sk.size = n)
+    {polys : Array RnsPoly} (h2 : 2 ≤ polys.size) (hc : ∀ k, k < polys.size → RnsCanon l (polys.getD k #[])) (cf : Nat)
+    (hsafe : Drv.Sch.bfvSafe t (Spec.prodL qs) (Drv.Sch.exactPhase l qs sk ⟨polys, false, cf⟩) = true) :
+    Drv.Sch.modelDec ⟨.bfv, n, qs, t, sk, ⟨polys, false, cf⟩⟩ = Drv.Sch.exactDec ⟨.bfv, n, qs, t, sk, ⟨polys, false, cf⟩⟩ := by
+  obtain ⟨hb, _, f2, _, f4, f5, _⟩ := c01q_mkLevel_built h
+  obtain ⟨hl, hq, _, hd, _⟩ := mkLevel_ok h
+  refine driver_dec_bfv h ht hsk h2 hc cf ?_ hsafe
+  have hn0 := c01q_n_pos hl
+  have hQ : 0 < Spec.prodL (c01p_qvals l) := by rw [c01p_prodL_qvals (hd ht).1]; exact hq.bwf.prod_pos
+  rw [← f4, ← f5] at hsafe
+  rw [← f4]
+  refine c01q_behz_of_bfvSafe (c01q_mkLevel_gamma h ht) (c01q_built_size_le hb) hQ ?_ hsafe
+  unfold Drv.Sch.exactPhase
+  rw [c01q_coeffPolys_false]
+  exact (c01q_phase_general hq (sk := sk) (c01q_polys_ne h2) (fun p hp => (c01q_polys_mem hc p hp).1) hn0).1
+
+/-- BGV, the driver's two columns: whenever the oracle commits to a value, the model's output string equals the oracle's
+    (the oracle's test excludes ties) -/
+theorem driver_dec_bgv_safe {n : Nat} {qs : List Nat} {t : Nat} {l : Level}
+    (h : Drv.Sch.mkLevel .bgv n qs t = .ok l) (ht : t ≠ 0) {sk : Array Int} (hsk : sk.size = n)
+    {polys : Array RnsPoly} (h2 : 2 ≤ polys.size) (hc : ∀ k, k < polys.size → RnsCanon l (polys.getD k #[]))
+    {cf : Nat} (hcf : cf < 2^63) (hcop : Nat.Coprime cf t)
+    (hsafe : (Drv.Sch.exactPhase l qs sk ⟨polys, true, cf⟩).all
+      (fun x => (Spec.prodL qs - 2 * x.natAbs) * 2^40 > Spec.prodL qs) = true) :
+    Drv.Sch.modelDec ⟨.bgv, n, qs, t, sk, ⟨polys, true, cf⟩⟩ = Drv.Sch.exactDec ⟨.bgv, n, qs, t, sk, ⟨polys, true, cf⟩⟩ := by
+  obtain ⟨hl, hq, _, _, _, f2, _, f4, _⟩ := mkLevel_ok h
+  refine driver_dec_bgv h ht hsk h2 hc hcf hcop ?_ hsafe
+  intro j hj
+  have hsz : (Drv.Sch.exactPhase l qs sk ⟨polys, true, cf⟩).size = l.n := by
+    unfold Drv.Sch.exactPhase
+    rw [c01q_coeffPolys_true, ← f4]
+    exact (c01q_phase_general hq (sk := sk) (by simpa using c01q_polys_ne h2)
+      (fun p hp => by obtain ⟨p', -, rfl⟩ := List.mem_map.mp hp; exact c01p_rnsIntt_size l p') (c01q_n_pos hl)).1
+  rw [Array.all_eq_true] at hsafe
+  have hj' : j < (Drv.Sch.exactPhase l qs sk ⟨polys, true, cf⟩).size := by rw [hsz, f2]; exact hj
+  have h1 := of_decide_eq_true (hsafe j hj')
+  have e : (Drv.Sch.exactPhase l qs sk ⟨polys, true, cf⟩).getD j 0 = (Drv.Sch.exactPhase l qs sk ⟨polys, true, cf⟩)[j] := by
+    simp [Array.getD, hj']
+  rw [e]
+  generalize (Drv.Sch.exactPhase l qs sk ⟨polys, true, cf⟩)[j] = x at h1 ⊢
+  generalize Spec.prodL qs = Q at h1 ⊢
+  have h3 : 0 < Q - 2 * x.natAbs := by
+    by_contra hc0
+    have : Q - 2 * x.natAbs = 0 := by omega
+    rw [this] at h1
+    omega
+  omega
 
 end HC
